@@ -4,7 +4,7 @@
 
 namespace l3 {
 struct Scenario { const char* name; double growth; double tension; double bulk; int iters; };
-static std::string g_err; static long g_checks = 0; static int g_iter = 0; static bool g_active = false;
+static std::string g_err; static std::string g_final_key; static long g_checks = 0; static int g_iter = 0; static bool g_active = false;
 static std::map<unsigned, bool> g_positive_before_refine;
 static long double signed_volume_about_mean(const cell& c) { sc::Geom g = sc::geom_of(c); return g.vol; }
 // Node motion between passes is produced by the (possibly unstable) dynamics here and may itself turn a tiny cell inside out; the
@@ -27,7 +27,7 @@ static std::string run(const sc::Mesh& seed, const Scenario& sc_, const std::str
     try {
         solver s(p, {c}, 1, true, false);
         for (g_iter = 0; g_iter < sc_.iters && g_err.empty(); g_iter++) { s.run_iteration(); check_population(&s, "after_iteration"); }
-        for (auto& cc : s.cell_lst_) { if (!cc->node_lst_.empty()) { cc->rebase(); final_nodes = cc->get_nb_of_nodes(); } }
+        g_final_key.clear(); for (auto& cc : s.cell_lst_) { if (!cc->node_lst_.empty()) { cc->rebase(); final_nodes = cc->get_nb_of_nodes(); g_final_key += sc::canon_cell(*cc); } }
         check_population(&s, "after_final_rebase");
         for (auto& cc : s.cell_lst_) cc->clear_data();
     } catch (std::exception& e) { /* failure reported by exception: allowed, the history ends */ }
@@ -55,7 +55,7 @@ static void explore(Result& R) {
     std::vector<l3::Scenario> scs = {{"grow", 3.0, 0.05, 5.0, th ? 300 : 60}, {"shrink", -0.6, 0.3, 2.0, th ? 300 : 60}, {"steady_high_tension", 0.0, 1.0, 1.0, th ? 200 : 40}};
     for (auto& s : sd) for (auto& sc_ : scs) { if (!R.args.mine(unit++)) continue; if (R.out_of_time(0.95)) { R.cap("deadline in L3"); break; }
         long ops = 0, fn = 0; std::string e = l3::run(s.mesh, sc_, scratch, ops, fn); R["L3_runs"]++; R["L3_oracle_checks"] = l3::g_checks; R["transitions"] += sc_.iters; R["states"] += sc_.iters;
-        R.tables["L3_final_node_count"][s.name + "/" + sc_.name] = fn;
+        R.tables["L3_final_node_count"][s.name + "/" + sc_.name] = fn; R.mix(s.name + "/" + sc_.name + "/" + std::to_string(fn) + "/" + l3::g_final_key);
         if (!e.empty()) R.violation("L3|" + clause_of(e.substr(e.find(": ", e.find(" cell ")) == std::string::npos ? 0 : e.find(": ", e.find(" cell ")) + 2)), "seed " + s.name + " scenario " + sc_.name + ": " + e, "level=L3\nseed=" + s.name + "\nscenario=" + sc_.name + "\n"); }
     std::string cmd = "rm -rf '" + scratch + "'"; if (system(cmd.c_str())) {}
     R["traces_validated_against_impl"] = R["transitions"]; R["evaluations"] = R["transitions"]; R["distinct_nontrivial"] = R["states"];
